@@ -34,7 +34,7 @@ PLAN = {'quick': {'gen': 8}, 'thorough': {'gen': 16, 'tests': 1}}
 REQUIRED_BUCKETS = ['op:Plane()', 'op:Pupil(mask3d)', 'op:multiply', 'op:propagate_dft', 'op:propagate_fft', 'op:fit_tilt',
                     'op:rescale', 'op:adc', 'op:collect_charge', 'op:collect_charge_bayer', 'op:tilt-multiply', 'op:Field(ndarray offset)', 'op:Plane.properties', 'op:pixel', 'op:jitter', 'op:smear',
                     'op:dft2', 'op:idft2', 'op:zernike_fit', 'op:pad', 'op:rebin', 'op:power_spectrum', 'op:Spectrum.multiply',
-                    'op:Spectrum.sample', 'op:Spectrum.bin', 'op:Spectrum.to', 'op:shot_noise', 'op:read_noise', 'program', 'dft-keys>32',
+                    'op:Spectrum.sample', 'op:Spectrum.bin', 'op:Spectrum.to', 'op:refusals', 'op:shot_noise', 'op:read_noise', 'program', 'dft-keys>32',
                     'replayed']
 REQUIRED_ANCHORS = ['anchor:_dft2_coords', 'anchor:Plane.__init__', 'anchor:adc', 'anchor:Plane.fit_tilt', 'anchor:Field.__mul__']
 REQUIRED_ORACLES = ['frozen-inputs', 'inputs-unchanged', 'history-deterministic', 'global-rng-untouched', 'global-state-untouched', 'dft-cache-intact',
@@ -401,6 +401,52 @@ def catalogue(lentil, rng):
         wa = np.sort(rng.uniform(400, 900, na)); wb = np.sort(rng.uniform(500, 1000, nb))
         wa = np.linspace(wa[0], wa[-1] + 5, na); wb = np.linspace(wb[0], wb[-1] + 5, nb)
         return ({'wa': wa * ua[1], 'va': rng.uniform(0.1, 1, na), 'wb': wb * ub[1], 'vb': rng.uniform(0.1, 1, nb)}, ua[0], ub[0])
+
+    @op('refusals')
+    def _():
+        # calls that lentil refuses (they raise): the refusal must leave the caller's operands alone and - because this entry
+        # sits in the history between all the others - must not disturb any later result (half-updated caches, leaked state)
+        shape, a = pupil_args()
+        a['f'] = rng.normal(size=(5, 6)) + 0j
+        a['img'] = rng.uniform(1, 100, size=(4, 4))
+        a['wa'] = np.linspace(400., 700., 6)
+        a['va'] = rng.uniform(0.1, 1, 6)
+        def call(a):
+            p = mk_pupil(a)
+            w = lentil.Wavefront(6e-7) * p
+            sp = R.Spectrum(a['wa'], a['va'], waveunit='nm')
+            fps = (probe.fingerprint(p), probe.fingerprint(w), probe.fingerprint(sp))
+            attempts = [
+                lambda: lentil.fourier.dft2(a['f'], 0.1, shape=(4, 4), out=np.zeros((3, 3), complex)),
+                lambda: lentil.fourier.dft2(a['f'], (0.1, 0.2, 0.3)),
+                lambda: lentil.propagate_dft(w, 5e-6, shape=8, oversample=2, mask=np.ones((3, 3))),
+                lambda: lentil.propagate_dft(lentil.Wavefront(6e-7), 5e-6, shape=8),
+                lambda: lentil.Pupil(amplitude=a['amp'], pixelscale=2e-3, focal_length=5.0) * w,
+                lambda: lentil.Image(amplitude=a['amp'], pixelscale=1e-3) * w,
+                lambda: lentil.propagate_fft(w * lentil.Tilt(x=1e-6, y=0), 5e-6),
+                lambda: lentil.propagate_fft(w, 5e-6, shape=10 ** 6),
+                lambda: D.shot_noise(-a['img'], method='gaussian', seed=1),
+                lambda: D.shot_noise(-a['img'], seed=1),
+                lambda: sp.to('parsec'),
+                lambda: sp * R.Spectrum(a['wa'], a['va'][:-1], waveunit='nm'),
+                lambda: R.Spectrum(a['wa'][:3], a['va'], waveunit='nm'),
+                lambda: sp.resample(a['wa'][::-1]),
+                lambda: lentil.rebin(a['f'], 2),
+                lambda: lentil.zernike(a['mask'][0], 0),
+                lambda: lentil.pad(a['img'], (2, 3, 4, 5)),
+                lambda: D.adc(a['img'], gain=np.ones((2, 2, 2, 2))),
+            ]
+            flags = []
+            for t in attempts:
+                try:
+                    t()
+                    flags.append(0.0)
+                except Exception as e:
+                    flags.append(1.0 + (sum(map(ord, type(e).__name__)) % 97) / 100.0)
+            out = (np.array(flags), lentil.propagate_dft(w, 5e-6, shape=8, oversample=2), sp * 2.0)
+            after = (probe.fingerprint(p), probe.fingerprint(w), probe.fingerprint(sp))
+            return out, [('plane', fps[0], after[0]), ('wavefront', fps[1], after[1]), ('spectrum-a', fps[2], after[2])]
+        return a, call
 
     @op('Spectrum.to')
     def _():
